@@ -20,7 +20,7 @@ import (
 // key it was produced under, so a value stored or served under another key is visible immediately.
 func c11Concurrent(rep *vk.Report, idx int) {
 	r := vk.Rng(rep.Seed, "C11c", idx)
-	cache := &syncCache{m: map[string]int{}}
+	cache := &syncCache{m: map[string]int{}, sets: map[int]int{}}
 	pol := cachepolicy.Builder[int](cache).WithKey(vk.Pick(r, "", "cfg")).Build()
 	var pols []failsafe.Policy[int]
 	if r.IntN(2) == 0 {
@@ -33,6 +33,8 @@ func c11Concurrent(rep *vk.Report, idx int) {
 	var bad atomic.Pointer[string]
 	var calls atomic.Int64
 	var wg sync.WaitGroup
+	var pmu sync.Mutex
+	produced := []int{} // every value an execution's function returned without error: each must have been stored
 	start := make(chan struct{})
 	for w := 0; w < g; w++ {
 		wr := vk.Rng(rep.Seed, "C11cw", idx*64+w)
@@ -52,6 +54,9 @@ func c11Concurrent(rep *vk.Report, idx int) {
 					} else {
 						time.Sleep(time.Duration(wr.IntN(80)) * time.Microsecond)
 					}
+					pmu.Lock()
+					produced = append(produced, n*100+k)
+					pmu.Unlock()
 					return n*100 + k, nil // the value carries the key index it was produced for
 				})
 				if err != nil || v%100 != k {
@@ -74,6 +79,13 @@ func c11Concurrent(rep *vk.Report, idx int) {
 	for key, v := range cache.m {
 		if key != fmt.Sprintf("key-%d", v%100) {
 			rep.Violate(idx, "C11/concurrent-wrong-key", fmt.Sprintf("after %d overlapping executions the cache holds %q -> %d, a value produced for key-%d", g*6, key, v, v%100), cs)
+			return
+		}
+	}
+	// a miss stores its error-free result, whatever other executions did to the same key in the meantime
+	for _, v := range produced {
+		if cache.sets[v] != 1 {
+			rep.Violate(idx, "C11/miss-result-not-stored", fmt.Sprintf("an execution missed, its function returned (%d,nil), and that value was stored %d times (overlapping executions on key-%d)", v, cache.sets[v], v%100), cs)
 			return
 		}
 	}
